@@ -93,11 +93,11 @@ func init() {
 			"(and a triggerBlockIter per BEGIN…END body), which pulls one row from its child, builds and drains the trigger logic for it and hands a row on. Decided: " +
 			"(T1) once per row: in every iterator that executes trigger logic, each path to a returned row pulls exactly one child row, rules out the child's error/EOF before the logic runs and returns that error itself, " +
 			"builds the logic exactly once (per statement of a block: exactly once per statement, all statements) and drains it until io.EOF; " +
-			"(T5) inside the statement: a built logic iterator is closed on every path (closing is what completes or discards the edits of DML inside the body), and no error of build / Next / Close of the logic is swallowed — each reaches the caller, i.e. the triggering statement fails; " +
+			"(T5) inside the statement: a built logic iterator is closed on every path (closing is what completes or discards the edits of DML inside the body), and no error of build / Next / Close of the logic is swallowed — each reaches the caller, i.e. the triggering statement fails; Close of an executor closes its child (under an AFTER executor: the DML's table editor iterator) on every path and returns its error; " +
 			"(T2) row flow: the logic is built on, and its sources are prepended with, the row pulled from the child (a block threads its current row through its statements); the rows handed on are the child's row or the last logic row selected by shouldUseLogicResult; " +
 			"the input||updated layout written by buildSet is read back as the upper half by both readers; the old||new layout of UPDATE rows agrees between updateSourceIter (writer), updateIter (reader, RowUpdater.Update(old,new)) and the OLD/NEW scope that getTriggerLogic builds for every event; " +
 			"planbuilder and analyzer offer the same aliases (new / old) per event; the rows a DML iterator returns to an AFTER executor have the width of that event's scope; " +
-			"(T3) placement: for every DML node kind applyTrigger wraps the node's row source for BEFORE and the node itself for AFTER, the two analyzer switches (event detection, placement) cover exactly the node kinds whose build function opens a table editor and agree on the event; every editor operation a DML iterator performs is covered by the event the node is matched to; " +
+			"(T3) placement: for every DML node kind applyTrigger wraps the node's row source for BEFORE and the node itself for AFTER, the two analyzer switches (event detection, placement) cover exactly the node kinds whose build function opens a table editor and agree on the event; every editor operation a DML iterator performs is covered by the event the node is matched to; a trigger is selected only under a conjunction testing its table and its event; the roles of the executor's two children (child = first constructor parameter, logic = second; field, Children() index and accessor read from plan) are the roles buildTriggerExecutor, the selector of the placing transform (no descent into the logic of an executor placed earlier: otherwise the next trigger is also placed on DML inside that body) and the prepend selector use; " +
 			"(T4) order: applyTriggers applies the triggers in the slice produced by the ordering function; OrderTriggers inserts a PRECEDES trigger at, a FOLLOWS trigger right after, the referenced one and splits the *reordered* slice; exactly the AFTER half is reversed before application (each application lands next to the DML node, so BEFORE triggers run in application order and AFTER triggers in reverse).",
 		NotCovered: "the values an arbitrary trigger body computes, reads or stores (expression evaluation, GetField index assignment by the analyzer, prepend-node execution); which plan shapes shouldUseLogicResult selects (it looks for SET NEW.x in the analysed body); run-time iteration counts beyond the path shape (e.g. a child that yields a row twice); " +
 			"rollback of the trigger's and the statement's effects through savepoints: AddTriggerRollbackIter logs and ignores CreateSavepoint errors and the in-memory session does not implement savepoints, so that half is not claimed; DELETE with explicit targets / multi-table trigger sets (refused by applyTrigger); foreign-key cascades and TRUNCATE do not fire triggers (as in MySQL) and are outside the tables checked here",
@@ -162,6 +162,7 @@ func runC23(c *Ctx, nm c23Names, fixture bool) {
 	c23RunLayout(e)
 	c23RunPlace(e)
 	c23RunOrder(e)
+	c23RunGuards(e)
 	if os.Getenv("C23_DEBUG") != "" {
 		for _, o := range c.Obs {
 			fmt.Printf("OBS %-7s %-10s %-70s %s | %s\n", o.Rule, o.Status, o.Key, o.Pos, o.Msg)
@@ -172,10 +173,10 @@ func runC23(c *Ctx, nm c23Names, fixture bool) {
 func c23DeclareRules(e *c23Env) {
 	c := e.c
 	c.Rule("C23-T1", "once per row: per iterator that executes trigger logic, every path to a returned row passes exactly one child.Next whose error/EOF was ruled out before the logic is built and is returned as is; the logic is built exactly once (block: once per statement, every statement) and drained to io.EOF", e.floor(4))
-	c.Rule("C23-T5", "inside the statement: per iterator that executes trigger logic, a built logic iterator is closed on every path, and errors of build, Next and Close of the logic reach the caller (never discarded, never overwritten by a row return)", e.floor(8))
+	c.Rule("C23-T5", "inside the statement: per iterator that executes trigger logic, a built logic iterator is closed on every path, and errors of build, Next and Close of the logic reach the caller (never discarded, never overwritten by a row return); Close of an executor closes its child on every path and hands on that error", e.floor(9))
 	c.Rule("C23-T2", "row flow: the logic is built on / prepended with the child's row (block: its current row), the drain loop keeps the last logic row, and every returned row is the child's row or the row selected from the last logic row", e.floor(8))
-	c.Rule("C23-L", "row layouts agree: buildSet writes input||updated and both readers take the upper half; UPDATE rows are old||new for the writer (updateSourceIter), the reader (updateIter: Update(old,new)) and the OLD/NEW scope of getTriggerLogic; planbuilder and analyzer offer the same aliases per event; rows returned to an AFTER executor have the width of the event's scope", e.floor(14))
-	c.Rule("C23-T3", "placement: applyTrigger wraps the DML node's row source for BEFORE and the node itself for AFTER; detection and placement switches cover exactly the node kinds that open a table editor and agree on the event; every editor operation of a DML iterator belongs to the node's event", e.floor(14))
+	c.Rule("C23-L", "row layouts agree: buildSet writes input||updated and both readers take the upper half; UPDATE rows are old||new for the writer (updateSourceIter), the reader (updateIter: Update(old,new)) and the OLD/NEW scope of getTriggerLogic; planbuilder and analyzer offer the same aliases per event; rows returned to an AFTER executor have the width of the event's scope", e.floor(17))
+	c.Rule("C23-T3", "placement: applyTrigger wraps the DML node's row source for BEFORE and the node itself for AFTER; detection and placement switches cover exactly the node kinds that open a table editor and agree on the event; every editor operation of a DML iterator belongs to the node's event; the executor's child/logic roles (constructor fields, Children() index, accessors) are the ones the build function, the placing transform's selector and the prepend selector use; triggers are selected by table AND event", e.floor(19))
 	c.Rule("C23-T4", "order: the application loop ranges over the ordering function's result; OrderTriggers inserts PRECEDES at / FOLLOWS after the referenced trigger and splits the reordered slice by time; exactly the AFTER half is reversed", e.floor(6))
 }
 
@@ -260,25 +261,29 @@ func c23MethodsOf(p *Prog, pk *packages.Package, typeName string) []*ast.FuncDec
 // c23FixtureWant is what the rules must report on testdata/c23 (one planted defect per construct; every other
 // construct of the fixture is a correct sibling the rules must accept).
 var c23FixtureWant = []string{
-	"C23-T1:triggerIter.Next/logic-once-drained",              // drain loop stops after the first row
-	"C23-T1:triggerBlockIter.Next/logic-once-drained",         // a statement can be skipped
-	"C23-T5:triggerIter.Next/close-error-propagated",          // deferred Close drops its error
-	"C23-T5:triggerBlockIter.Next/logic-iter-closed",          // failing statement's iterator left open
-	"C23-T2:triggerIter.Next/logic-input-row",                 // logic built on the (nil) named result
-	"C23-L:buildSet/input-then-updated",                       // updated||input
-	"C23-L:shouldUseLogicResult/Set",                          // lower half
-	"C23-L:triggerBlockIter.Next/statement-result-upper-half", // lower half
-	"C23-L:updateIter.Next/Update(lower,upper)",               // Update(new, old)
-	"C23-L:getTriggerLogic/UpdateTrigger/NewTableAlias",       // CrossJoin(new, old)
-	"C23-L:aliases/DeleteTrigger",                             // planbuilder offers NEW to DELETE triggers
-	"C23-L:insertIter.Next/row-width:doubled-make",            // doubled row to a one-table scope
-	"C23-T3:dml-kind/Merge",                                   // editor-opening node kind without trigger arms
-	"C23-T3:event/DeleteFrom",                                 // detection says UPDATE, placement DELETE
-	"C23-T3:deleteIter/RowDeleter.Delete",                     // … so the delete operation is not covered
-	"C23-T3:insertIter/RowDeleter.Delete",                     // replace path deletes under an INSERT-only match
-	"C23-T3:applyTrigger/Update/after",                        // AFTER executor under the node
-	"C23-T4:applyTriggers/applies-ordered-slice",              // catalog order applied
-	"C23-T4:OrderTriggers/FOLLOWS",                            // re-inserted at the referenced index
-	"C23-T4:OrderTriggers/splits-reordered-slice",             // split ranges over the input
-	"C23-T4:orderTriggersAndReverseAfter/reverses-after-half", // BEFORE half reversed
+	"C23-T1:triggerIter.Next/logic-once-drained",                     // drain loop stops after the first row
+	"C23-T1:triggerBlockIter.Next/logic-once-drained",                // a statement can be skipped
+	"C23-T5:triggerIter.Next/close-error-propagated",                 // deferred Close drops its error
+	"C23-T5:triggerBlockIter.Next/logic-iter-closed",                 // failing statement's iterator left open
+	"C23-T2:triggerIter.Next/logic-input-row",                        // logic built on the (nil) named result
+	"C23-L:buildSet/input-then-updated",                              // updated||input
+	"C23-L:shouldUseLogicResult/Set",                                 // lower half
+	"C23-L:triggerBlockIter.Next/statement-result-upper-half",        // lower half
+	"C23-L:updateIter.Next/Update(lower,upper)",                      // Update(new, old)
+	"C23-L:getTriggerLogic/UpdateTrigger/NewTableAlias",              // CrossJoin(new, old)
+	"C23-L:aliases/DeleteTrigger",                                    // planbuilder offers NEW to DELETE triggers
+	"C23-L:insertIter.Next/row-width:doubled-make",                   // doubled row to a one-table scope
+	"C23-T3:dml-kind/Merge",                                          // editor-opening node kind without trigger arms
+	"C23-T3:event/DeleteFrom",                                        // detection says UPDATE, placement DELETE
+	"C23-T3:deleteIter/RowDeleter.Delete",                            // … so the delete operation is not covered
+	"C23-T3:insertIter/RowDeleter.Delete",                            // replace path deletes under an INSERT-only match
+	"C23-T3:applyTrigger/Update/after",                               // AFTER executor under the node
+	"C23-T3:applyTrigger/selector-skips-logic-child",                 // selector skips child 0, not the logic
+	"C23-T3:prependRowForTriggerExecutionSelector/skips-logic-child", // prepend selector skips the wrapped child
+	"C23-T3:applyTriggers/selects-by-table-and-event",                // selected by event only
+	"C23-T5:triggerIter.Close/closes-child",                          // child's Close error dropped
+	"C23-T4:applyTriggers/applies-ordered-slice",                     // catalog order applied
+	"C23-T4:OrderTriggers/FOLLOWS",                                   // re-inserted at the referenced index
+	"C23-T4:OrderTriggers/splits-reordered-slice",                    // split ranges over the input
+	"C23-T4:orderTriggersAndReverseAfter/reverses-after-half",        // BEFORE half reversed
 }
